@@ -79,6 +79,30 @@ def _returns_string(prog, g, f, v, depth=0):
     return True
 
 
+def resolve_held_function(prog, f, call):
+    """Targets of a call through a local name that is only ever bound to functions of the repository, directly or through functools.partial:
+    -> [(function info, number of positional arguments already bound)] or []."""
+    if not isinstance(call.func, ast.Name):
+        return []
+    name = call.func.id
+    binds = [s_.value for s_ in iter_stmts(f.node.body) if isinstance(s_, ast.Assign) and any(isinstance(t_, ast.Name) and t_.id == name for t_ in s_.targets)]
+    out = []
+    for v in binds:
+        alts = [v.body, v.orelse] if isinstance(v, ast.IfExp) else [v]
+        for a in alts:
+            pre = 0
+            if isinstance(a, ast.Call) and U(a.func).split(".")[-1] == "partial" and a.args:
+                pre, a = len(a.args) - 1, a.args[0]
+            if not isinstance(a, (ast.Name, ast.Attribute)):
+                return []
+            short = U(a).split(".")[-1]
+            cands = [fi for k_, fi in prog.funcs.items() if k_.split("::")[1] == short]
+            if len(cands) != 1:
+                return []
+            out.append((cands[0], pre))
+    return out
+
+
 def format_only_param(prog, g, fkey, pname, depth=0, seen=None):
     """Does parameter `pname` of function fkey influence only string building?  -> (bool, reason)"""
     seen = seen or set()
@@ -99,6 +123,14 @@ def format_only_param(prog, g, fkey, pname, depth=0, seen=None):
                 nm = U(call.func)
                 if nm.startswith("_LOGGER.") or nm in ("str", "bool", "len", "print"):
                     continue
+                if nm.split(".")[-1] == "methodcaller" and isinstance(p, ast.keyword) and call.args and isinstance(call.args[0], ast.Constant):
+                    # operator.methodcaller("name", kw=flag): the flag reaches parameter kw of every method of that name
+                    meths = [k_ for k_ in prog.funcs if k_.split("::")[1].split(".")[-1] == call.args[0].value and "." in k_.split("::")[1]]
+                    bad_ = [why_ for k_ in meths for ok_, why_ in [format_only_param(prog, g, k_, p.arg, depth + 1, seen)]
+                            if p.arg in [a.arg for a in prog.funcs[k_].node.args.args + prog.funcs[k_].node.args.kwonlyargs] and not ok_]
+                    if meths and not bad_:
+                        continue
+                    return False, (bad_[0] if bad_ else f"{pname} handed to methodcaller of an unknown method in {f.qual}")
                 return False, f"{pname} handed to unresolved call {nm} in {f.qual}"
             for t in targets:
                 params = [a.arg for a in t.node.args.args + t.node.args.kwonlyargs]
@@ -189,6 +221,39 @@ def check(prog, rep):
                 r1.ok(k, f"copied into local {alias!r} ({len(uses)} use(s), each classified separately)", where)
                 queue.extend((u, optname) for u in uses)
                 continue
+            pt = parent(n)
+            if isinstance(pt, (ast.Tuple, ast.List)) and isinstance(parent(pt), ast.Assign) and parent(pt).value is pt and len(parent(pt).targets) == 1 \
+                    and isinstance(parent(pt).targets[0], ast.Name) and key not in PRE_STAGE:
+                # the option is packed into a local argument tuple: every use of the tuple must be `*tuple` in a call whose parameter at that
+                # position only builds strings
+                local, pos = parent(pt).targets[0].id, pt.elts.index(n)
+                uses = [x for x in walk_no_defs(f.node) if isinstance(x, ast.Name) and x.id == local and isinstance(x.ctx, ast.Load)]
+                verdict, why = bool(uses), "the argument tuple is never used"
+                for u in uses:
+                    star = parent(u)
+                    call = parent(star) if isinstance(star, ast.Starred) else None
+                    if not isinstance(call, ast.Call) or star not in call.args or any(isinstance(a, ast.Starred) for a in call.args[:call.args.index(star)]):
+                        verdict, why = False, f"the tuple {local} holding the option is used other than as *{local} in a call"
+                        break
+                    targets, _ = g.resolve(f, call)
+                    held = [(t_, 0) for t_ in targets] or resolve_held_function(prog, f, call)
+                    if not held:
+                        verdict, why = False, f"*{local} handed to unresolved call {U(call.func)}"
+                        break
+                    for t_, pre in held:
+                        params = [a.arg for a in t_.node.args.args]
+                        idx = pre + call.args.index(star) + pos + (1 if t_.cls is not None and params and params[0] in ("self", "cls") else 0)
+                        if idx >= len(params):
+                            verdict, why = False, f"cannot bind element {pos} of *{local} to a parameter of {t_.key}"
+                            break
+                        ok_, why = format_only_param(prog, g, t_.key, params[idx])
+                        if not ok_:
+                            verdict = False
+                            break
+                    if not verdict:
+                        break
+                r1.add(k, verdict, f"packed into the argument tuple {local!r} (element {pos}), passed on as *{local}: {why}", where)
+                continue
             if key in PRE_STAGE:
                 # validation / normalisation only: may store back to args.<same option>
                 stores = [s for s in iter_stmts(f.node.body) if isinstance(s, ast.Assign) and isinstance(s.targets[0], ast.Attribute)
@@ -216,6 +281,11 @@ def check(prog, rep):
                 if callee in ("open",):
                     r1.ok(k, "output path", where)
                     continue
+                held_pre = {}
+                if not targets:
+                    held = resolve_held_function(prog, f, call)
+                    targets = [t_ for t_, _ in held]
+                    held_pre = {t_.key: pre for t_, pre in held}
                 if not targets:
                     if U(call.func).startswith("_LOGGER."):
                         r1.ok(k, "logging", where)
@@ -228,7 +298,7 @@ def check(prog, rep):
                     if isinstance(p, ast.keyword):
                         q = p.arg
                     else:
-                        idx = call.args.index(n) + (1 if t.cls is not None and params and params[0] in ("self", "cls") else 0)
+                        idx = call.args.index(n) + held_pre.get(t.key, 0) + (1 if t.cls is not None and params and params[0] in ("self", "cls") else 0)
                         q = params[idx] if idx < len(params) else None
                     if q not in params:
                         verdict, why = False, f"cannot bind to a parameter of {t.key}"
